@@ -335,6 +335,16 @@ class Program:
         self._effects[body_id] = out
         return out
 
+    def is_own(self, body_id, e):
+        """the effect happens in body_id's own statements or in closures defined inside it (not in a callee)"""
+        if not e.chain:
+            return True
+        kids = set(self.facts.descendants(body_id))
+        return all(b in kids for b, _ in e.chain)
+
+    def own_effects(self, body_id):
+        return [e for e in self.effects(body_id) if self.is_own(body_id, e)]
+
     def effects_on(self, body_id, cell, kinds=None):
         return [e for e in self.effects(body_id) if e.touches(cell) and (kinds is None or e.kind in kinds)]
 
